@@ -25,7 +25,7 @@ def meta(pid, proved, tested_only="", rule=COMMON_RULE, assumptions=None):
                  "assumptions": assumptions or []}
 
 
-A_FLOAT = "floating-point rounding is outside the theorems; float results are compared with the exact model within 1e-9 on dyadic inputs"
+A_FLOAT = "floating-point rounding is outside the theorems; float results are compared with the exact model within 1e-11 on dyadic inputs"
 A_CY = "the .pyx sources are executed under Python semantics (de-cythoniser); a real compiled extension is outside"
 A_RQ = "theorems are about the R instance of the polymorphic model; the executed Q instance is tied to it by the kernel-checked parametricity bridge (Bridge.v; the transfer theorems used are restated at the end of each Props file)"
 
